@@ -209,10 +209,22 @@ class Driver:
         line = self.p.stdout.readline()
         self.n += 1
         if not line:
-            raise RuntimeError("driver died (stack overflow or crash) on request " + json.dumps(obj)[:400])
+            # the model process died on this request (stack overflow, crash): a fresh one takes over; the caller sees an answer that
+            # agrees with no behaviour of the code, so the request is recorded as a disagreement and the run goes on
+            self.fails = getattr(self, "fails", 0) + 1
+            if self.fails > 50:
+                raise RuntimeError("driver died repeatedly; last request " + json.dumps(obj)[:400])
+            try:
+                self.p.kill()
+            except Exception:  # noqa: BLE001
+                pass
+            self.__init__()
+            self.fails = getattr(self, "fails", 0) + 1
+            return {"err": "model-driver-died", "driver_failure": True}
         r = json.loads(line)
         if "fail" in r:
-            raise RuntimeError("driver protocol failure: " + r["fail"] + " on " + json.dumps(obj)[:400])
+            # a request the driver cannot even parse (a state the code accepted but the model's types cannot express): same treatment
+            return {"err": "model-driver-rejected-request: " + str(r["fail"])[:200], "driver_failure": True}
         return r
 
     def ask_many(self, objs):
